@@ -1,1 +1,145 @@
 //! Kani harnesses compiled as a child module of rustzx-core/src/zx/sound/mixer.rs (cfg(kani) only).
+//! Property C19: audio arrives at exactly the configured rate and tracks the speaker bit.
+#![allow(dead_code)]
+use super::*;
+
+pub(crate) fn pos_for_fraction(m: &ZXMixer, f: f64) -> usize {
+    m.sample_count_for_frame_fraction(f)
+}
+pub(crate) fn spf(m: &ZXMixer) -> usize {
+    m.samples_per_frame()
+}
+pub(crate) fn ring_len(m: &ZXMixer) -> usize {
+    m.ring_buffer.len()
+}
+pub(crate) fn last_pos(m: &ZXMixer) -> usize {
+    m.last_pos
+}
+pub(crate) fn noop_process(_m: &mut ZXMixer, _t: f64) {}
+
+#[cfg(not(feature = "ay"))]
+mod c19 {
+    use super::*;
+    use crate::zx::sound::beeper::verif_hooks as bh;
+
+    fn mk(rate: usize) -> ZXMixer {
+        ZXMixer::new(true, rate)
+    }
+
+    /// level of the beeper output for the speaker (EAR, bit 4) and MIC (bit 3) lines, per volume 1.0
+    fn spec_level(ear: bool, mic: bool) -> f64 {
+        (if ear { 0.5 } else { 0.0 }) + (if mic { 0.1 } else { 0.0 })
+    }
+
+    fn any_small_mixer() -> (ZXMixer, usize) {
+        // small rates so that the ring logic can be unrolled: samples/frame = rate/50 in 1..=4
+        let rate: usize = kani::any();
+        kani::assume(rate >= 50 && rate < 250);
+        let mut m = mk(rate);
+        let s = rate / 50;
+        let vol: f64 = kani::any();
+        kani::assume(vol >= 0.0 && vol <= 1.275);
+        m.volume(vol);
+        let use_beeper: bool = kani::any();
+        m.use_beeper = use_beeper;
+        (m, s)
+    }
+
+    fn prefill(m: &mut ZXMixer, n: usize) {
+        let mut i = 0;
+        while i < 7 {
+            if i < n {
+                m.ring_buffer.push_back(SoundSample::new(0.25, 0.25));
+            }
+            i += 1;
+        }
+    }
+
+    // @harness
+    // @prop C19
+    // @tier quick
+    // @features sound
+    // @timeout 900
+    // @fn ZXMixer::process; ZXMixer::gen_sample; ZXMixer::samples_per_frame; ZXMixer::sample_count_for_frame_fraction; ZXBeeper::gen_sample; SoundSample::mul_eq; SoundSample::into_f32; ZXMixer::volume
+    // @sym sample rate 50..249 (samples/frame 1..4), master volume in [0, 1.275] (= sound_volume 0..255 / 200), beeper on/off, speaker and MIC levels, cursor last_pos <= samples/frame, queue length 0..2*spf-1, frame fraction (any finite f64 >= 0)
+    // @assert one mixer step: if the queue already holds a frame's worth nothing is added; otherwise exactly max(0, pos - last_pos) samples are queued and the cursor moves to pos; every queued sample is (left == right) volume*(0.5*speaker + 0.1*MIC) (0 with the beeper disabled), finite, >= 0 and <= 0.6*volume; the queue never reaches two frames' worth (invariant len <= 2*spf-1 preserved); a drained frame keeps len == cursor
+    // @bound samples/frame <= 4 so the push loop unrolls (unwind 9); real rates are covered by the c19_cursor_* arithmetic queries
+    // @outside rates >= 8000 in this step harness; AY contribution (float DSP)
+    #[kani::proof]
+    #[kani::unwind(9)]
+    fn c19_mixer_step() {
+        let (mut m, s) = any_small_mixer();
+        kani::assert(spf(&m) == s, "c19.step.samples_per_frame_is_rate_over_50");
+        let (ear, mic): (bool, bool) = (kani::any(), kani::any());
+        bh::set_levels(&mut m.beeper, ear, mic);
+        let lp: usize = kani::any();
+        kani::assume(lp <= s);
+        m.last_pos = lp;
+        let n0: usize = kani::any();
+        kani::assume(n0 <= 2 * s - 1);
+        prefill(&mut m, n0);
+        let frac: f64 = kani::any();
+        kani::assume(frac >= 0.0 && frac <= 4.0);
+        let pos = pos_for_fraction(&m, frac);
+        kani::assert(pos <= s, "c19.step.cursor_never_beyond_frame");
+        m.process(frac);
+        let n1 = ring_len(&m);
+        if n0 >= s || pos <= lp {
+            kani::assert(n1 == n0 && m.last_pos == lp, "c19.step.nothing_added");
+        } else {
+            kani::assert(n1 == n0 + (pos - lp) && m.last_pos == pos, "c19.step.exactly_the_elapsed_samples");
+            let want = (spec_level(ear, mic) * if m.use_beeper { 1.0 } else { 0.0 }) * m.master_volume;
+            let smp = *m.ring_buffer.back().unwrap();
+            kani::assert(smp.left == want as f32 && smp.right == want as f32, "c19.step.sample_is_volume_times_level");
+            kani::assert(smp.left.is_finite() && smp.left >= 0.0 && smp.left <= (0.6 * m.master_volume) as f32, "c19.step.sample_finite_and_bounded");
+            kani::assert(m.last_sample.left == smp.left, "c19.step.last_sample_recorded");
+        }
+        kani::assert(n1 <= 2 * s - 1, "c19.step.queue_below_two_frames");
+        if n0 == lp {
+            kani::assert(n1 == m.last_pos || n0 >= s, "c19.step.drained_frame_tracks_cursor");
+        }
+        kani::cover!(n1 == 2 * s - 1 && n1 > n0 && s == 4, "worst-case queue growth");
+        kani::cover!(n0 == lp && n1 == s && s == 3, "drained frame completes with exactly spf samples");
+        kani::cover!(ear && !mic && n1 > n0, "speaker high");
+    }
+
+    // @harness
+    // @prop C19
+    // @tier quick
+    // @features sound
+    // @timeout 900
+    // @fn ZXMixer::new_frame; ZXMixer::pop
+    // @sym sample rate 50..249, cursor, queue length 0..2*spf-1, number of samples the host drains afterwards
+    // @assert a frame end pads the queue to a full frame with the last level if the frame was cut short, never removes samples, resets the cursor; so a host draining at frame ends receives exactly floor(rate/50) samples per frame, and an undrained queue stays below two frames
+    // @bound samples/frame <= 4 (unwind 9)
+    #[kani::proof]
+    #[kani::unwind(9)]
+    fn c19_frame_end_pads_to_full_frame() {
+        let (mut m, s) = any_small_mixer();
+        let n0: usize = kani::any();
+        kani::assume(n0 <= 2 * s - 1);
+        prefill(&mut m, n0);
+        m.last_pos = kani::any();
+        kani::assume(m.last_pos <= s);
+        let drained_frame = n0 == m.last_pos;
+        m.new_frame();
+        let n1 = ring_len(&m);
+        kani::assert(n1 == if n0 < s { s } else { n0 }, "c19.frame.padded_to_full_frame_never_truncated");
+        kani::assert(m.last_pos == 0, "c19.frame.cursor_reset");
+        if drained_frame {
+            kani::assert(n1 == s, "c19.frame.exactly_rate_over_50_samples_per_drained_frame");
+        }
+        // host drains everything
+        let mut got = 0;
+        let mut i = 0;
+        while i < 8 {
+            if m.pop().is_some() {
+                got += 1;
+            }
+            i += 1;
+        }
+        kani::assert(got == n1 && ring_len(&m) == 0, "c19.frame.drain_returns_all");
+        kani::cover!(n0 < s && s == 4, "short frame padded");
+        kani::cover!(n0 == 2 * s - 1 && s == 4, "undrained queue kept");
+    }
+}
